@@ -85,16 +85,16 @@ Proof.
   assert (Hsh : forall u, u < pred (gn h) -> shift (length a) u < gn h) by (intros u Hu; apply shift_lt; auto; lia).
   split; [split; [|split]|].
   - rewrite contract_gn. auto.
-  - rewrite contract_gn. intros v Hv. rewrite <- colour_shift with (x := x). apply H0. auto.
+  - rewrite contract_gn. intros v Hv. rewrite <- (colour_shift a x b v). apply H0. auto.
   - intros u v Ha. apply (contract_adj h i (length a) u v Hwf Hi) in Ha.
-    rewrite <- !colour_shift with (x := x).
+    rewrite <- (colour_shift a x b u), <- (colour_shift a x b v).
     pose proof (shift_neq (length a) u) as Hu. pose proof (shift_neq (length a) v) as Hv.
     destruct Ha as [Ha|(Huv & [[E Ha]|[E Ha]])].
     + apply Hne. apply remove_edge_adj. split; auto. split; intros [? ?]; congruence.
     + rewrite E, Hij. apply Hne. apply remove_edge_adj. split; auto. split; intros [? ?]; try congruence; lia.
     + rewrite E, Hij. intro Eq. symmetry in Eq. revert Eq. apply Hne. apply remove_edge_adj.
       split; auto. split; intros [? ?]; try congruence; lia.
-  - rewrite contract_gn. intros v Hv. rewrite <- colour_shift with (x := x). apply Hk. auto.
+  - rewrite contract_gn. intros v Hv. rewrite <- (colour_shift a x b v). apply Hk. auto.
 Qed.
 
 Lemma dc_from_contract c' : k_colouring (contract h i j) k c' ->
@@ -124,15 +124,15 @@ Proof.
     assert (Huv : u <> v) by (intro; subst; rewrite Hirr in Ha; discriminate).
     assert (Hedge_c : forall u' v', merged_adj h i (length a) (shift (length a) u') (shift (length a) v') ->
                colour_of (a ++ b) u' <> colour_of (a ++ b) v').
-    { intros u' v' Hm. apply Hne. apply (contract_adj h i (length a) u' v'); auto. split; auto. }
+    { intros u' v' Hm. apply Hne. apply (contract_adj h i (length a) u' v'); auto. }
     destruct (Nat.eq_dec u (length a)) as [->|Hua]; destruct (Nat.eq_dec v (length a)) as [->|Hva]; try congruence.
     + (* u = j: the edge j-v becomes i-v *)
       assert (Hvi : v <> i) by (intro; subst; apply Hn2; auto).
-      rewrite Hcj, <- Hci. destruct (Hcol v Hv Hva) as [-> _]. destruct (Hcol i Hi ltac:(lia)) as [-> _].
-      apply Hedge_c. rewrite !shift_unshift by (auto; lia). right. split; auto.
+      rewrite Hcj. destruct (Hcol v Hv Hva) as [-> _]. unfold x.
+      apply Hedge_c. rewrite Hsi, shift_unshift by auto. right. split; auto.
     + assert (Hui : u <> i) by (intro; subst; apply Hn1; auto).
-      rewrite Hcj, <- Hci. destruct (Hcol u Hu Hua) as [-> _]. destruct (Hcol i Hi ltac:(lia)) as [-> _].
-      apply Hedge_c. rewrite !shift_unshift by (auto; lia). right. split; auto. right. split; auto. rewrite Hs; auto.
+      rewrite Hcj. destruct (Hcol u Hu Hua) as [-> _]. unfold x.
+      apply Hedge_c. rewrite Hsi, shift_unshift by auto. right. split; auto. right. split; auto. rewrite Hs; auto.
     + destruct (Hcol u Hu Hua) as [-> _]. destruct (Hcol v Hv Hva) as [-> _].
       apply Hedge_c. rewrite !shift_unshift by auto. left; auto.
   - simpl. intros v Hv. apply Hall; auto.
